@@ -518,6 +518,7 @@ struct Gen {
       st.b = (o.unnamed_udts && rng.chance(30)) ? -1 : name;
       int u = push(st);
       if (st.b >= 0) { udt_types.push_back(u); if (kind != 2) types.push_back(u); }
+      else if (kind != 2 && rng.chance(60)) types.push_back(u);      // an unnamed type used as the type of later declarations, below pointers, in parameter lists: whatever the printer does with it, it does the same in every construction
       int n = int(rng.below(5));
       for (int k = 0; k < n; ++k) {
          if (kind == 3) { Step e { D_ENUMERATOR }; e.a = u; e.b = fresh_ident(); e.c = rng.chance(40) ? expr() : -1; mutate(u, e); }
